@@ -83,3 +83,33 @@ Qed.
 
 Example path_example : render (rev ["items"; "[0]"; "name"] ++ [""]) = "items[0].name".
 Proof. reflexivity. Qed.
+
+(** ** Issues.SanitizeList / SanitizeMap (utils.go): the same keys, the same order, only the messages.
+    [msg] is whatever message the issue carries when it is returned (the formatter has run). *)
+Section Sanitize.
+  Variable msg : issue -> string.
+  Definition sanitize_list (l : list issue) : list string := map msg l.
+  Definition sanitize_map (m : imap) : list (string * list string) := map (fun kv => (fst kv, sanitize_list (snd kv))) m.
+
+  Lemma sanitize_list_length l : length (sanitize_list l) = length l.
+  Proof. apply map_length. Qed.
+  Lemma sanitize_list_nth l n d : n < length l -> nth n (sanitize_list l) (msg d) = msg (nth n l d).
+  Proof. intros _. apply map_nth. Qed.
+  Lemma sanitize_map_keys m : map fst (sanitize_map m) = map fst m.
+  Proof. unfold sanitize_map. rewrite map_map. reflexivity. Qed.
+  Lemma sanitize_map_lookup m k : alookup k (sanitize_map m) = option_map sanitize_list (alookup k m).
+  Proof.
+    unfold alookup, sanitize_map. induction m as [|[k0 l0] r IH]; cbn; [reflexivity|].
+    destruct (String.eqb k0 k); [reflexivity | exact IH].
+  Qed.
+End Sanitize.
+
+Theorem sanitize_spec : forall (msg : issue -> string) (m : imap),
+  map fst (sanitize_map msg m) = map fst m
+  /\ (forall k, alookup k (sanitize_map msg m) = option_map (sanitize_list msg) (alookup k m))
+  /\ (forall l, length (sanitize_list msg l) = length l)
+  /\ (forall l n d, n < length l -> nth n (sanitize_list msg l) (msg d) = msg (nth n l d)).
+Proof.
+  intros msg m. split; [apply sanitize_map_keys|]. split; [intros k; apply sanitize_map_lookup|].
+  split; [apply sanitize_list_length | apply sanitize_list_nth].
+Qed.
